@@ -79,6 +79,7 @@ def run(run, replay=None):
         if not idx:
             continue
         z = copy.deepcopy(tr)
+        z['canary_of'] = z['id']
         z['id'] = 'canary-s%d' % k
         # pretend the main section had declared another encoding
         other = cat.enc('utf-32-be' if bytes(z['ev'][0]['enc']['name']) != b'utf-32-be' else 'utf-8')
@@ -95,6 +96,7 @@ def run(run, replay=None):
     pool = [c for c in rcases if any(r['kind'] == 'text' and any(x > 127 for x in r['text']) for r in c['recs'])]
     for k, c in enumerate(rng.sample(pool, min(6, len(pool)))):
         z = copy.deepcopy(c)
+        z['canary_of'] = z['id']
         z['id'] = 'canary-r%d' % k
         for r in z['recs']:
             if r['kind'] == 'text' and any(x > 127 for x in r['text']):
